@@ -62,6 +62,14 @@ def gen_int(tier, rng):
         for _ in range(100 if tier == "quick" else 2000):
             a, b = rng.randint(lo, hi), rng.randint(lo, hi)
             cases.append((t, a, b, bits(rng.random()), True))
+        # equal or nearly equal endpoints of large magnitude with non-dyadic scalars: roundings of the two products
+        # (or of the sum) must not push the result out of [min, max]
+        if hi >= (1 << 23):
+            for _ in range(300 if tier == "quick" else 5000):
+                v = rng.randint(1 << 21, 1 << 23) * (rng.choice([1, -1]) if lo < 0 else 1)
+                w = max(lo, min(hi, v + rng.choice([0, 0, 1, -1, 2, -2, 7])))
+                if abs(v) <= (1 << 23) and abs(w) <= (1 << 23):
+                    cases.append((t, v, w, bits(rng.randint(1, 999) / 1000.0), True))
     return cases
 
 
